@@ -365,19 +365,17 @@ class PauliError(AdditionNoiseBase):
 
             state_rep.apply_unitary(error_op)
 
-        elif isinstance(state_rep, Stabilizer):
-            gate_list = []
+        elif isinstance(state_rep, (Stabilizer, MixedStabilizer)):
             if pauli_error == "X":
-                gate_list.append(("X", reg_list[0]))
+                state_rep.apply_sigmax(reg_list[0])
             elif pauli_error == "Y":
-                gate_list.append(("Y", reg_list[0]))
+                state_rep.apply_sigmay(reg_list[0])
             elif pauli_error == "Z":
-                gate_list.append(("Z", reg_list[0]))
+                state_rep.apply_sigmaz(reg_list[0])
             elif pauli_error == "I":
                 pass
             else:
                 raise ValueError("Wrong description of a Pauli matrix.")
-            state_rep.apply_circuit(gate_list)
 
         elif isinstance(state_rep, Graph):
             # TODO: Implement this for Graph backend
